@@ -98,17 +98,25 @@ def same_value(x, y, scale, af_bits=1, ref=0):
 
 def compare(scn, lscn, cr, lr):
     """exact tie, except that after a decode flagged invalid (short read) the values are not
-    compared: the C code stores the partially read field from an uninitialised buffer"""
+    compared: the field that was cut short is not modelled.  This also covers the values of such a
+    dataset once it has become the current one (`dd.tocur`) or has been merged from (`dd.merge`)."""
     from vlib.engine import compare as cmp0
     c_out, l_out = list(cr[0]), list(lr[0])
     bad = False
+    sticky = False
     for i, l in enumerate(scn.lines):
         if i >= len(c_out) or i >= len(l_out):
             break
         if l.startswith("ds.decode"):
             f = c_out[i].split()
-            bad = len(f) >= 2 and f[0] == "ok" and f[1] == "1"
+            bad = len(f) >= 3 and f[-3] == "ok" and f[-2] == "1"
+        elif l.startswith("tm.new"):
+            sticky = False
+        elif bad and (l.startswith("dd.tocur") or l.startswith("dd.merge")):
+            sticky = True
         elif bad and l.startswith("dd.vals"):
+            c_out[i] = l_out[i] = "-"
+        elif sticky and l.startswith("ss.vals"):
             c_out[i] = l_out[i] = "-"
     return cmp0(scn, (c_out, cr[1]), (l_out, lr[1]), None)
 
